@@ -49,9 +49,10 @@ def check(ctx):
         ctx.inst('R1', ac, 'accept-needs:' + label, want in keys, 'acceptance must be guarded by %s; guards %s' % (label, sorted(keys)))
     ctx.inst('R1', ac, 'max-len', fold_in(ac, C.consts['MAX_LEN']) == 26, 'LogConfig.MAX_LEN must be 26')
     rej = [n for n in g.nodes if n.kind == 'raise']
-    acc_if = [e.src for e in g.dominating_edges(acc[0]) if e.label and e.label[0] == 'cond' and 'MAX_LEN' in norm(e.label[1])]
+    acc_e = [e for e in g.dominating_edges(acc[0]) if e.label and e.label[0] == 'cond' and 'MAX_LEN' in norm(e.label[1])]      # the edge taken on acceptance
+    acc_if = [e.src for e in acc_e]
     ctx.need(acc_if, 'add_config: acceptance test not found')
-    false_e = [e for e in acc_if[0].succ if e.label and e.label[0] == 'cond' and e.label[2] is False]
+    false_e = [e for e in acc_if[0].succ if e.label and e.label[0] == 'cond' and e is not acc_e[0]]                          # ... and the rejection edge
     ok = bool(false_e) and g.path_avoiding(acc_if[0], [g.exit], avoid_edges=[e for e in acc_if[0].succ if e not in false_e]) is None
     ctx.inst('R1', ac, 'rejection-raises', ok, 'a rejected configuration must raise on every path')
     tx = [c for c in walk_own(ac.node) if isinstance(c, ast.Call) and isinstance(c.func, ast.Attribute) and c.func.attr in ('send_packet', 'create', 'start')]
@@ -71,7 +72,7 @@ def check(ctx):
     per = [s for s in walk_own(ci.node) if isinstance(s, ast.Assign) and norm(s.targets[0]) == 'self.period']
     ctx.inst('R1', ci, 'period=ms/10', len(per) == 1 and norm(per[0].value) == 'int(%s / 10)' % ci.params[2], 'period is counted in 10 ms units')
     asg = {norm(n.ast.targets[0]): norm(n.ast.value) for n in g.nodes if n.kind == 'stmt' and isinstance(n.ast, ast.Assign) and
-           ('e', [e for e in acc_if[0].succ if e.label[2] is True][0].id) in g.dom()[('n', n.id)]}
+           ('e', acc_e[0].id) in g.dom()[('n', n.id)]}
     ctx.inst('R1', ac, 'accept-binds', asg.get('%s.cf' % lc) == 'self.cf' and asg.get('%s.id' % lc) == 'self._config_id_counter' and asg.get('%s.useV2' % lc) == 'self._useV2',
              'an accepted configuration gets the Crazyflie, a fresh id and the protocol generation')
 
@@ -85,8 +86,9 @@ def check(ctx):
     n_rec = 0
     for p in bps:
         conds = p.cond_texts(orig=True)
-        mem = any(c.replace(' ', '') == 'var.is_toc_variable()isFalse' for c in conds)
-        v2 = 'self.useV2' in conds
+        fk_ = p.fact_keys()
+        mem = fact_key('var.is_toc_variable() is False', True) in fk_ or fact_key('var.is_toc_variable()', False) in fk_
+        v2 = fact_key('self.useV2', True) in fk_
         appended = []
         for e in p.events:
             if e.kind == 'call' and method_call(e.node, 'append') and norm(e.orig.func.value) == 'pk.data':
@@ -154,7 +156,7 @@ def check(ctx):
     for fn, v2c, v1c in (('_cmd_create_block', 6, 0), ('_cmd_append_block', 7, 1)):
         f = C.method(fn)
         ps, _ = paths_of(f)
-        got = sorted((('self.useV2' in p.cond_texts(orig=True)), fold_in(f, p.returned())) for p in ps if p.returned() is not None)
+        got = sorted(((fact_key('self.useV2', True) in p.fact_keys()), fold_in(f, p.returned())) for p in ps if p.returned() is not None)
         ctx.inst('R2', f, 'command-codes', got == [(False, v1c), (True, v2c)], '%s returns %s, expected legacy %d / current %d' % (fn, got, v1c, v2c))
 
     # ---- R5 ---------------------------------------------------------------------------------------
